@@ -90,6 +90,12 @@ VerifyBlock(blk, k, oracle) ==
   LET leaf == N(2 * blk.i, blk.size, Leaf(blk.size, blk.val)) IN    \* block_node(index, value)
   Climb(leaf, Q(blk.nodes, None), <<leaf>>, k, oracle)
 
+\* hash section [i, nodes]: the first node is the requested node itself, then siblings as above
+VerifyHash(hs, k, oracle) ==
+  LET s == Shift(Q(hs.nodes, None), hs.i, oracle) IN
+  IF ~s.ok THEN [ok |-> FALSE, root |-> None, nodes |-> <<>>, q |-> s.q]
+  ELSE Climb(s.node, s.q, <<s.node>>, k, oracle)
+
 ---------------------------------------------------------------------------
 (* MerkleTreeChangeset::append_root: push, then merge equal-height neighbours *)
 RECURSIVE Merge(_, _)
@@ -144,10 +150,14 @@ VerifyUpgrade(rep, up, blockroot, fork, oracle) ==
 
 ---------------------------------------------------------------------------
 (* verify_proof + commitable (src/core.rs verify_and_apply_proof).          *)
-(* proof = [fork, block (or None), up (or None)]; Mut names a deviation.    *)
+(* proof = [fork, block | None, hash | None, up | None]; mut names a deviation *)
 VerifyProof(rep, proof, k, oracle, mut) ==
   IF proof.fork # 0 THEN [ok |-> FALSE, why |-> "fork"]
-  ELSE LET vb == IF IsNone(proof.block) THEN [ok |-> TRUE, root |-> None, nodes |-> <<>>, q |-> Q(<<>>, None)]
+  ELSE LET \* normalize_data: the block section if there is one, else the hash section; what is stored
+           \* afterwards (src/core.rs) is always the block section's value
+           useHash == IF mut = "hash_section_wins" THEN ~IsNone(proof.hash) ELSE IsNone(proof.block) /\ ~IsNone(proof.hash)
+           vb == IF useHash THEN VerifyHash(proof.hash, k, oracle)
+                 ELSE IF IsNone(proof.block) THEN [ok |-> TRUE, root |-> None, nodes |-> <<>>, q |-> Q(<<>>, None)]
                  ELSE VerifyBlock(proof.block, k, oracle) IN
        IF ~vb.ok THEN [ok |-> FALSE, why |-> "block nodes"]
        ELSE LET vu == IF IsNone(proof.up)
@@ -190,28 +200,33 @@ InSeq(x, sq) == \E j \in 1..Len(sq) : sq[j] = x
 \* part being added is proved up to the node the upgrade needs there, which it then replaces
 RECURSIVE ClimbTo(_, _)
 ClimbTo(i, targets) == IF InSeq(i, targets) THEN 0 ELSE 1 + ClimbTo(Parent(i), targets)
-HonestK(rep, b, wl) ==
-  IF b < 0 THEN 0
-  ELSE IF b >= rep.rl /\ rep.rl < wl THEN ClimbTo(2 * b, UpAsked(rep, wl))
-  ELSE MissingNodes(rep, 2 * b)
+\* request = block b (or -1) / hash of tree node h (or -1); at most one of them
+HonestK(rep, b, h, wl) ==
+  LET i == IF b >= 0 THEN 2 * b ELSE h IN
+  IF i < 0 THEN 0
+  ELSE IF LeftSpan(i) >= 2 * rep.rl /\ rep.rl < wl THEN ClimbTo(i, UpAsked(rep, wl))
+  ELSE MissingNodes(rep, i)
 
-HonestProof(rep, b, wl) ==
-  LET k == HonestK(rep, b, wl)
+HonestProof(rep, b, h, wl) ==
+  LET k == HonestK(rep, b, h, wl)
       upreq == HonestUp(rep, wl)
       skel == [fork |-> 0,
                block |-> IF b < 0 THEN None ELSE [i |-> b, val |-> b + 1, size |-> Sizes[b + 1], nodes |-> <<>>],
+               hash |-> IF h < 0 THEN None ELSE [i |-> h, nodes |-> <<>>],
                up |-> IF IsNone(upreq) THEN None
                       ELSE [start |-> upreq.start, length |-> upreq.length, nodes |-> <<>>, extra |-> <<>>,
                             sig |-> TrueSig(wl)]]
       r == VerifyProof(rep, skel, k, TRUE, "none")
+      sect == [j \in 1..Len(r.askedBlock) |-> TrueNode(r.askedBlock[j])]
   IN [fork |-> 0,
-      block |-> IF b < 0 THEN None
-                ELSE [skel.block EXCEPT !.nodes = [j \in 1..Len(r.askedBlock) |-> TrueNode(r.askedBlock[j])]],
+      block |-> IF b < 0 THEN None ELSE [skel.block EXCEPT !.nodes = sect],
+      hash |-> IF h < 0 THEN None ELSE [skel.hash EXCEPT !.nodes = sect],
       up |-> IF IsNone(upreq) THEN None
              ELSE [skel.up EXCEPT !.nodes = [j \in 1..Len(r.askedUp) |-> TrueNode(r.askedUp[j])]]]
 
 \* index lists of an honest proof, for comparison with the crate's prover
 Shape(p) == [block |-> IF IsNone(p.block) THEN <<>> ELSE [j \in 1..Len(p.block.nodes) |-> p.block.nodes[j].idx],
+             hash |-> IF IsNone(p.hash) THEN <<>> ELSE [j \in 1..Len(p.hash.nodes) |-> p.hash.nodes[j].idx],
              up |-> IF IsNone(p.up) THEN <<>> ELSE [j \in 1..Len(p.up.nodes) |-> p.up.nodes[j].idx]]
 
 ---------------------------------------------------------------------------
